@@ -616,8 +616,15 @@ where
                         )));
                     }
                     Some(content) => {
-                        // TODO check length
-                        io::copy(&mut content.take(*length), dest)?;
+                        let copied = io::copy(&mut content.take(*length), dest)?;
+                        if copied != *length {
+                            // The source ended before the announced length
+                            return Err(io::Error::new(
+                                io::ErrorKind::UnexpectedEof,
+                                "File content shorter than the announced length",
+                            )
+                            .into());
+                        }
                     }
                 }
                 Ok(())
@@ -932,6 +939,10 @@ impl<W: InnerWriterTrait> ArchiveWriter<'_, W> {
 
         if self.files_info.contains_key(filename) {
             return Err(Error::DuplicateFilename);
+        }
+        if filename.len() as u64 > FILENAME_MAX_SIZE {
+            // Refuse before registering the file or writing anything
+            return Err(Error::FilenameTooLong);
         }
 
         // Create ID for this file
